@@ -32,6 +32,7 @@ package jsonata
 //@ func (*Expr).Eval
 //@   props C10 C09
 //@   requires e != nil
+//@   requires [input-is-a-value-or-a-usable-reflect-Value] typeis(data, "reflect.Value") ==> ifaceable(dyn(data, "reflect.Value"))
 //@   preserves e
 //@   ensures [C10:error-has-no-value] ret("eval#0", 1) != nil ==> (r0 == nil && r1 == ret("eval#0", 1))
 //@   ensures [C10:no-value-is-ErrUndefined] (ret("eval#0", 1) == nil && !valid(ret("eval#0", 0))) ==> (r0 == nil && r1 == ErrUndefined)
@@ -111,13 +112,25 @@ package jsonata
 //@   ensures result != nil && result.Type == typ && fresh(result)
 //@   assigns heap
 
+// Every evaluator function (node, data, env) is given a scope and a usable context item; the only callers without a
+// scope are the two time functions ($now, $millis: partial applications built at compile time whose fixed arguments
+// are number literals), and literals need no scope.
+//@ pred litNode(n jparse.Node) = typeis(n, "*jparse.StringNode") || typeis(n, "*jparse.NumberNode") || typeis(n, "*jparse.BooleanNode") || typeis(n, "*jparse.NullNode")
+//@ paramrule data env requires env != nil && ifaceable(data)
+//@ paramrule data env ensures (r1 != nil ==> !valid(r0)) && ((r1 == nil && valid(r0)) ==> canif(r0))
+//@ mapinv map[string]reflect.Value ifaceable
+//@ fieldpred jsonata.lambdaCallable.context ifaceable
+//@ fieldpred jsonata.partialCallable.context ifaceable
+//@ nonnil field jsonata.lambdaCallable.env jsonata.transformationCallable.env
 //@ func eval
+//@   props C09
 //@   requires nn(node)
+//@   requires [scope] env != nil || litNode(node)
+//@   requires [context] ifaceable(input)
 //@   ensures r1 != nil ==> !valid(r0)
 //@   ensures (r1 == nil && valid(r0)) ==> canif(r0)
 //@   ensures (r1 == nil && valid(r0) && typeis(node, "*jparse.ArrayNode")) ==> arrKind(kind(res(r0)))
 //@   assigns heap
-//@   trusted
 
 // --- C03: comparison operators ----------------------------------------------------------------------
 // Statement: = and != compare numbers, strings and booleans by value (arrays/objects structurally);
@@ -343,7 +356,7 @@ package jsonata
 //@ func evalOverSequence
 //@   props C01 C09
 //@   precise-append
-//@   requires nn(node) && seq != nil
+//@   requires nn(node) && seq != nil && env != nil
 //@   preserves seq
 //@   ensures [C01:error-propagates] r1 != nil ==> (len(r0) == 0 && r1 == ret("eval#0", 1))
 //@   ensures [C01+C09:present-results-only] r1 == nil ==> (forall k in [0, len(r0)): (valid(r0[k]) && canif(r0[k])))
@@ -453,6 +466,7 @@ package jsonata
 //@   precise-append
 //@   requires f != nil && len(argv) >= len(f.params) && argsUsable(argv)
 //@   ensures [C12:not-variadic-unchanged] !old(lastIsVariadic(f)) ==> result == argv
+//@   ensures [C12+C09:arguments-stay-usable] argsUsable(result)
 //@   ensures [C12:variadic-tail-collected] old(lastIsVariadic(f)) ==> (len(result) == old(len(f.params)) && kind(result[old(len(f.params)) - 1]) == 23 && rvlen(result[old(len(f.params)) - 1]) == len(argv) - old(len(f.params)) + 1)
 //@   loop 0 invariant 0 <= i && i <= n && n == len(argv) - paramCount + 1 && paramCount == len(f.params) && kind(vars) == 23 && rvlen(vars) == n && canif(vars) && argsUsable(argv)
 
@@ -462,6 +476,7 @@ package jsonata
 //@   ensures [C12:untyped-takes-anything] !old(f.typed) ==> (r1 == nil && r0 == argv)
 //@   ensures [C12:count-checked-first] (old(f.typed) && ret("lambdaCallable.validateArgCount#0", 1) != nil) ==> r1 == ret("lambdaCallable.validateArgCount#0", 1)
 //@   ensures [C12:error-has-no-arguments] r1 != nil ==> len(r0) == 0
+//@   ensures [C12+C09:arguments-stay-usable] r1 == nil ==> argsUsable(r0)
 //@   assigns heap
 
 // Lexical scoping (C12): an environment is a frame of bindings with a parent; bind writes the innermost frame only;
@@ -475,7 +490,7 @@ package jsonata
 //@   assigns nothing
 //@ func (*environment).bind
 //@   props C12 C09
-//@   requires s != nil
+//@   requires s != nil && ifaceable(value)
 //@   ensures [C12:binds-innermost-frame] s.symbols != nil && has(s.symbols, name) && s.symbols[name] == value && s.parent == old(s.parent)
 //@   ensures old(s.symbols) != nil ==> s.symbols == old(s.symbols)
 //@   assigns s.symbols, deref(s.symbols)
@@ -485,6 +500,7 @@ package jsonata
 //@   ensures [C12:innermost-binding-wins] has(s.symbols, name) ==> result == s.symbols[name]
 //@   ensures [C12:unbound-in-outermost-frame] (!has(s.symbols, name) && s.parent == nil) ==> !valid(result)
 //@   ensures [C12:otherwise-the-enclosing-scope] (!has(s.symbols, name) && s.parent != nil) ==> result == ret("environment.lookup#0", 0)
+//@   ensures [C12+C09:bound-values-are-usable] ifaceable(result)
 //@   assigns nothing
 //@   atcall[C12:enclosing-scope] environment.lookup#0 requires callee_s == s.parent && streq(callee_name, name)
 //@ func evalVariable
@@ -509,7 +525,7 @@ package jsonata
 //@   atcall[C12:block-opens-a-scope] newEnvironment#0 requires callee_parent == env
 //@   atcall[C12:expressions-see-the-block-scope] eval#0 requires callee_env == ret("newEnvironment#0", 0) && callee_input == data
 //@   loop 0 calls [C12:every-expression-evaluated] eval#0
-//@   loop 0 invariant -1 <= $i0 && (err == nil) && env == ret("newEnvironment#0", 0)
+//@   loop 0 invariant -1 <= $i0 && (err == nil) && env == ret("newEnvironment#0", 0) && env != nil && ifaceable(res)
 //@ func (*lambdaCallable).Call
 //@   props C12 C09
 //@   opaque-arith
@@ -522,6 +538,7 @@ package jsonata
 //@   atcall[C12:parameters-bound-to-arguments] environment.bind#0 requires callee_s == ret("newEnvironment#0", 0) && streq(callee_name, name) && (i < len(ret("lambdaCallable.validateArgs#0", 0)) ? callee_value == ret("lambdaCallable.validateArgs#0", 0)[i] : !valid(callee_value))
 //@   loop 0 calls [C12:every-parameter-bound] environment.bind#0
 //@   loop 0 invariant -1 <= $i0 && env == ret("newEnvironment#0", 0) && env != nil && nn(f.body) && f.body == old(f.body) && f.context == old(f.context) && argv == ret("lambdaCallable.validateArgs#0", 0)
+//@   loop 0 invariant argsUsable(argv)
 
 // Function values, application and chaining (C12): a lambda keeps the environment and context item of its definition
 // site; v ~> f(a) is f(v, a) on a *new* call node (the syntax tree is shared); v ~> f calls f(v); f ~> g is a new
@@ -687,17 +704,22 @@ package jsonata
 //@   ensures [C20:own-map] (old(e.registry) != nil ==> e.registry == old(e.registry)) && (old(e.registry) == nil ==> (e.registry == nil || fresh(e.registry)))
 //@   assigns e.registry, deref(e.registry)
 //@   loop 0 invariant e.registry == old(e.registry) || (old(e.registry) == nil && fresh(e.registry) && e.registry != nil)
+//@   loop 0 invariant frame(values, e.registry)
 
 // evalName / evalNameArray: field selection; over an array the field is selected from every member and the results
 // are collected in one flat sequence (also for arrays nested in arrays: the inner results are spliced in, the inner
 // sequence object itself is never an item)
 //@ func evalName
 //@   props C01 C09 C10
+//@   noparamrule
 //@   requires node != nil && ifaceable(data)
 //@   ensures r1 != nil ==> !valid(r0)
+//@   ensures (kind(res(data)) != 25 && r1 == nil && valid(r0)) ==> canif(r0)
+//@   ensures [assumed:input-structs-have-only-exported-fields] (kind(res(data)) == 25 && r1 == nil && valid(r0)) ==> canif(r0)
 //@   assigns heap
 //@ func evalNameArray
 //@   props C01 C09 C10
+//@   noparamrule
 //@   requires node != nil && arrKind(kind(data)) && canif(data)
 //@   ensures r1 != nil ==> !valid(r0)
 //@   ensures r1 == nil ==> isSeq(r0)
@@ -749,20 +771,33 @@ package jsonata
 // flattening of JSON's nested arrays) and flatten other array values one level; object constructors take a literal
 // string key as the member name without evaluating it (so on any input, also an array of items, {"a": v} has the
 // single member a with v evaluated over the whole context), reject non-string keys and duplicate keys.
+//@ func newRegexCallable
+//@   props C17 C09
+//@   requires re != nil
+//@   ensures result != nil && fresh(result)
+//@ func evalRegex
+//@   props C17 C09
+//@   noparamrule
+//@   requires node != nil
+//@   ensures r1 == nil && valid(r0) && canif(r0)
 //@ func evalString
 //@   props C11 C09
+//@   noparamrule
 //@   requires node != nil
 //@   ensures r1 == nil && kind(r0) == 24 && sval(r0) == node.Value && canif(r0)
 //@ func evalNumber
 //@   props C11 C09
+//@   noparamrule
 //@   requires node != nil
 //@   ensures r1 == nil && kind(r0) == 14 && same(fval(r0), node.Value) && canif(r0)
 //@ func evalBoolean
 //@   props C11 C09
+//@   noparamrule
 //@   requires node != nil
 //@   ensures r1 == nil && kind(r0) == 1 && bval(r0) == node.Value && canif(r0)
 //@ func evalNull
 //@   props C11 C09
+//@   noparamrule
 //@   ensures r1 == nil && kind(r0) == 22 && isnil(r0) && canif(r0)
 //@ func evalArray
 //@   props C11 C09
@@ -784,7 +819,7 @@ package jsonata
 //@   props C14 C11 C09
 //@   opaque-arith
 //@   precise-append
-//@   requires obj != nil && arrKind(kind(items)) && canif(items)
+//@   requires obj != nil && arrKind(kind(items)) && canif(items) && env != nil
 //@   preserves obj
 //@   ensures [C14:error-kinds] r1 != nil ==> (r0 == nil && (r1 == ret("eval#0", 1) || evalErrIs(r1, ErrIllegalKey) || evalErrIs(r1, ErrDuplicateKey)))
 //@   assigns heap
@@ -845,7 +880,7 @@ package jsonata
 //@ pred posIndex(n float64, count int) = ifloor(n) < 0 ? ifloor(n) + count : ifloor(n)
 //@ func applyFilter
 //@   props C02 C09
-//@   requires nn(filter) && arrKind(kind(items)) && canif(items)
+//@   requires nn(filter) && arrKind(kind(items)) && canif(items) && env != nil
 //@   ensures [C02:error-propagates] r1 != nil ==> (!valid(r0) && r1 == ret("eval#0", 1))
 //@   ensures [C02+C09:result-is-list] r1 == nil ==> (kind(r0) == 23 && canif(r0))
 //@   assigns heap
@@ -886,7 +921,7 @@ package jsonata
 //@ func buildSortInfo
 //@   props C13 C09
 //@   opaque-arith
-//@   requires arrKind(kind(items)) && canif(items)
+//@   requires arrKind(kind(items)) && canif(items) && env != nil
 //@   ensures [C13+C09:keys-complete] r1 == nil ==> (len(r0) == rvlen(items) && sortKeysOK(r0, len(terms)) && (forall a in [0, len(r0)): r0[a].index == a))
 //@   ensures [ghost] forall t in [0, len(terms)): ufb_numterm(r0, t) == isNumberTerm[t]
 //@   ensures [C13+C09:keys-sortable-not-mixed] r1 == nil ==> (forall a in [0, len(r0)): forall t in [0, len(terms)): keyClassOK(r0[a].values[t], ufb_numterm(r0, t)))
